@@ -16,6 +16,7 @@ RULE = ("Weight vectors (1-64 groups, ints and decimals 1e-9..1e9 as source text
         ">=2 positive weights evaluated within 2 grid points of a boundary, or a vector containing a zero weight; "
         "distinct by (vector, k).")
 RULE += (' Since rounds 6-7: zero-padded weight spellings, uneven shares written only in 1e-9 units.')
+RULE += (' Since rounds 14-15: weights passed as one-shot iterables.')
 ASSUMPTIONS = [
     "within 1e-12*total of a boundary (0.0043 grid points) either neighbour is accepted unless the double arithmetic is "
     "provably exact for that vector and grid point (then equality is demanded); such cases are counted as ambiguity-zone",
